@@ -47,6 +47,8 @@ Theorem run_passes_C07 : forall s, wf_groups s -> wf_snapshot s = true -> for_gr
 Proof. run_lift_wf group_passes_C07. Qed.
 Theorem run_passes_C07_exact : forall s, wf_groups s -> wf_snapshot s = true -> for_groups check_C07_exact s (run_journals s) = true.
 Proof. run_lift_wf group_passes_C07_exact. Qed.
+Theorem run_passes_up_attempted : forall s, wf_groups s -> for_groups check_up_attempted s (run_journals s) = true.
+Proof. run_lift group_passes_up_attempted. Qed.
 Theorem run_passes_C08 : forall s, wf_groups s -> wf_snapshot s = true -> for_groups check_C08_group s (run_journals s) = true.
 Proof. run_lift_wf group_passes_C08. Qed.
 
